@@ -364,7 +364,7 @@ def same_hash_class(a, b):
     return c05.canon(a, rules) == c05.canon(b, rules)
 
 
-EDIT_KINDS = ["body", "var", "const_arg", "unrelated_fun", "unrelated_var", "reorder", "ext", "revert"]
+EDIT_KINDS = ["body", "var", "const_arg", "unrelated_fun", "unrelated_var", "reorder", "ext", "revert", "delete_call"]
 
 
 def bump_tag(tag):
@@ -411,4 +411,20 @@ def apply_edit(rng, world, kind):
     if kind == "ext":
         w["ext_version"] = w.get("ext_version", 0) + 1
         return w, {"kind": kind}
+    if kind == "delete_call":
+        sites = [(f, i) for f in w["funs"] for i, it in enumerate(f["items"]) if it["k"] in ("call", "ref")]
+        if not sites:
+            return None
+        f, i = rng.choice(sites)
+        del f["items"][i]
+        # run-time arguments refer to results by index: shift them
+        for it in f["items"]:
+            if it["k"] == "keep":
+                for a in list(it.get("args", [])) + [x for (_, x) in it.get("kwargs", [])]:
+                    if "r" in a:
+                        a["r"] = [x if x < i else x - 1 for x in a["r"] if x != i]
+        prune(w)
+        if not kept_paths(w):
+            return None
+        return w, {"kind": "body", "fun": f["name"], "deleted_call": True}
     return None
